@@ -266,20 +266,19 @@ Qed.
 
 (* ------------------------------------------------------------------ alphanumeric addresses *)
 Definition addr_alnum_val (a : s_addr) (ss : list N) : taddr :=
-  {| a_npi := sa_npi a; a_ton := sa_ton a; a_no := map g7_rune ss |}.
-(* text without CR and ESC; not 8k+7 septets (then the seven fill bits would decode as an extra '@') *)
-Definition alnum_dec_ok (ss : list N) : Prop := plain ss /\ (List.length ss mod 8 <> 7)%nat.
-(* D21: additionally the number of useful semi-octets must be even for the length octet to come back *)
-Definition alnum_rt_ok (ss : list N) : Prop := plain ss /\ ((7 * nlen ss + 3) / 4) mod 2 = 0.
+  {| a_npi := sa_npi a; a_ton := sa_ton a; a_no := code_text ss |}.
+(* what is left of D21: with 8k+7 septets the seven fill bits are decoded as one more character;
+   and the decoder takes a final CR of 8k septets for the filler *)
+Definition alnum_ok (ss : list N) : Prop := (List.length ss mod 8 <> 7)%nat /\ ~ ends_in_filler_cr ss.
 
 Lemma alnum_octets n : (((7 * n + 3) / 4 + 1) / 2 = (7 * n + 7) / 8)%nat.
 Proof. lia. Qed.
 
 Lemma addr_read_alnum a ss rest :
-  sa_val a = Alnum ss -> addr_wf a -> alnum_dec_ok ss ->
+  sa_val a = Alnum ss -> addr_wf a -> alnum_ok ss ->
   addr_read g7_table (tp_addr a ++ rest) = Ok (addr_alnum_val a ss, rest).
 Proof.
-  intros Hv [Hnpi [Hton Hwf]] [Hp Hn]. rewrite Hv in Hwf. destruct Hwf as [H5 [Hs Hlen]].
+  intros Hv [Hnpi [Hton Hwf]] [Hn Hcr]. rewrite Hv in Hwf. destruct Hwf as [H5 [Hs Hlen]].
   unfold tp_addr. rewrite Hv. unfold addr_read. cbn [app read_byte obind].
   destruct (N.eqb_spec ((7 * nlen ss + 3) / 4) 0) as [E|_]; [lia|]. cbn [read_byte obind].
   destruct (toa_bits (sa_ton a) (sa_npi a) Hton Hnpi) as [Hnp [Ht _]]. unfold toa_octet. rewrite Hnp, Ht.
@@ -292,41 +291,37 @@ Proof.
 Qed.
 
 Lemma addr_write_alnum a ss :
-  sa_val a = Alnum ss -> addr_wf a -> alnum_rt_ok ss -> addr_write g7_table (addr_alnum_val a ss) = tp_addr a.
+  sa_val a = Alnum ss -> addr_wf a -> alnum_ok ss -> addr_write g7_table (addr_alnum_val a ss) = tp_addr a.
 Proof.
-  intros Hv [Hnpi [Hton Hwf]] [Hp Heven]. rewrite Hv in Hwf. destruct Hwf as [H5 [Hs Hlen]].
+  intros Hv [Hnpi [Hton Hwf]] [Hn7 Hcr]. rewrite Hv in Hwf. destruct Hwf as [H5 [Hs Hlen]].
   assert (Hne : ss <> []) by (apply nlen_pos_nonempty; lia).
-  assert (Hn7 : (List.length ss mod 8 <> 7)%nat) by (unfold nlen in *; lia).
   unfold addr_write, addr_body, addr_alnum_val. cbn [a_no a_ton a_npi].
-  destruct (map g7_rune ss) as [|c x] eqn:E; [destruct ss; [contradiction|discriminate E]|]. rewrite <- E.
+  pose proof (code_text_nonempty ss Hs Hne) as Hc.
+  destruct (code_text ss) as [|c x] eqn:E; [contradiction|]. rewrite <- E.
   destruct (N.eqb_spec (sa_ton a) 5); [|contradiction].
   destruct (toa_bits (sa_ton a) (sa_npi a) Hton Hnpi) as [_ [_ Hk]]. rewrite Hk.
-  rewrite ta_encode_runes by assumption.
+  rewrite ta_encode_text by assumption.
   unfold tp_addr. rewrite Hv. unfold toa_octet. f_equal.
   unfold blen. cbn [List.length]. rewrite pack7_length. unfold packed_len, nlen in *.
-  pose proof (alnum_octets (List.length ss)). rewrite N.mod_small by lia. lia.
+  replace (N.of_nat (S ((7 * List.length ss + 7) / 8)) - 1) with (N.of_nat ((7 * List.length ss + 7) / 8)) by lia.
+  rewrite (N.mod_small (N.of_nat _)) by lia. rewrite N.mod_small by lia. lia.
 Qed.
 
 Definition addr_val (a : s_addr) : taddr :=
   match sa_val a with Digits ds => addr_num_val a ds | Alnum ss => addr_alnum_val a ss end.
-Definition addr_dec_ok (a : s_addr) : Prop := match sa_val a with Digits _ => True | Alnum ss => alnum_dec_ok ss end.
-Definition addr_rt_ok (a : s_addr) : Prop := match sa_val a with Digits _ => True | Alnum ss => alnum_rt_ok ss end.
+(* [True] for a numeric address *)
+Definition addr_ok (a : s_addr) : Prop := match sa_val a with Digits _ => True | Alnum ss => alnum_ok ss end.
 
-Lemma addr_rt_dec a : addr_wf a -> addr_rt_ok a -> addr_dec_ok a.
-Proof.
-  unfold addr_rt_ok, addr_dec_ok. intros [_ [_ Hwf]]. destruct (sa_val a) as [ds|ss]; [auto|].
-  destruct Hwf as [_ [_ Hlen]]. intros [Hp He]. split; [exact Hp|]. unfold nlen in *. lia.
-Qed.
-Lemma addr_read_spec a rest : addr_wf a -> addr_dec_ok a ->
+Lemma addr_read_spec a rest : addr_wf a -> addr_ok a ->
   addr_read g7_table (tp_addr a ++ rest) = Ok (addr_val a, rest).
 Proof.
-  unfold addr_dec_ok, addr_val. intros Hw Hd. destruct (sa_val a) as [ds|ss] eqn:E.
+  unfold addr_ok, addr_val. intros Hw Hd. destruct (sa_val a) as [ds|ss] eqn:E.
   - apply addr_read_numeric; assumption.
   - apply addr_read_alnum; assumption.
 Qed.
-Lemma addr_write_spec a : addr_wf a -> addr_rt_ok a -> addr_write g7_table (addr_val a) = tp_addr a.
+Lemma addr_write_spec a : addr_wf a -> addr_ok a -> addr_write g7_table (addr_val a) = tp_addr a.
 Proof.
-  unfold addr_rt_ok, addr_val. intros Hw Hd. destruct (sa_val a) as [ds|ss] eqn:E.
+  unfold addr_ok, addr_val. intros Hw Hd. destruct (sa_val a) as [ds|ss] eqn:E.
   - apply addr_write_numeric; assumption.
   - apply addr_write_alnum; assumption.
 Qed.
@@ -374,9 +369,10 @@ Proof.
   rewrite !Z.mod_small by lia. reflexivity.
 Qed.
 
-(* ------------------------------------------------------------------ time stamps with a non-negative zone *)
+(* ------------------------------------------------------------------ time stamps, either sign of the zone *)
 Definition time_vals (t : s_time) : list N := [t_yy t; t_mo t; t_dd t; t_hh t; t_mi t; t_ss t; t_zq t].
-Definition time_val (t : s_time) : mtime := TDate (t_yy t) (t_mo t) (t_dd t) (t_hh t) (t_mi t) (t_ss t) (t_zq t).
+Definition time_val (t : s_time) : mtime :=
+  TDate (t_yy t) (t_mo t) (t_dd t) (t_hh t) (t_mi t) (t_ss t) (t_zneg t) (t_zq t).
 
 Lemma days_in_month_le yy mo : days_in_month yy mo <= 31.
 Proof.
@@ -390,36 +386,96 @@ Proof.
   unfold time_vals. repeat constructor; lia.
 Qed.
 
-Lemma scts_positive t : t_zneg t = false -> scts t = map semi2 (time_vals t).
-Proof. intros Hz. unfold scts, time_vals. rewrite Hz. cbn [map]. rewrite N.add_0_r. reflexivity. Qed.
-
-Lemma time_read_spec t rest :
-  time_wf t -> t_zneg t = false -> time_read_gen false (scts t ++ rest) = Ok (time_val t, rest).
+(* the zone octet: quarter hours below 80, sign in bit 3 *)
+Definition eighty : list N := map N.of_nat (seq 0 80).
+Definition zone_octet (neg : bool) (zq : N) : N := semi2 zq + (if neg then 8 else 0).
+Lemma zone_sweep :
+  forallb (fun zq => forallb (fun neg =>
+     let o := zone_octet neg zq in
+     negb (hi4 o =? 15) &&
+     (let '(n, q) := zone_of false o (lo4 o * 10 + hi4 o) in Bool.eqb n neg && (q =? zq)) &&
+     (N.lor (semi2 zq) 8 =? zone_octet true zq)) [false; true]) eighty = true.
+Proof. vm_compute. reflexivity. Qed.
+Lemma zone_facts neg zq : zq < 80 ->
+  let o := zone_octet neg zq in
+  hi4 o <> 15 /\ zone_of false o (lo4 o * 10 + hi4 o) = (neg, zq) /\ N.lor (semi2 zq) 8 = zone_octet true zq.
 Proof.
-  intros Hwf Hz. unfold time_read_gen. rewrite read_n_exact; [|reflexivity|lia].
-  cbn [obind]. rewrite scts_positive by exact Hz. rewrite decode_semi_semi2 by (apply time_vals_small; exact Hwf).
-  reflexivity.
+  intros Hz. pose proof zone_sweep as H. rewrite forallb_forall in H.
+  assert (Hin : In zq eighty) by (unfold eighty; apply in_map_iff; exists (N.to_nat zq); split; [lia|apply in_seq; lia]).
+  specialize (H zq Hin). rewrite forallb_forall in H.
+  assert (Hb : In neg [false; true]) by (destruct neg; cbn; auto). specialize (H neg Hb). cbn zeta in H.
+  apply andb_true_iff in H. destruct H as [H H3]. apply andb_true_iff in H. destruct H as [H1 H2].
+  cbn zeta. destruct (zone_of false (zone_octet neg zq) _) as [n q].
+  apply andb_true_iff in H2. destruct H2 as [Hn Hq]. apply Bool.eqb_prop in Hn. apply N.eqb_eq in Hq, H3.
+  split; [destruct (N.eqb_spec (hi4 (zone_octet neg zq)) 15); [discriminate|assumption]|].
+  split; [rewrite Hn, Hq; reflexivity|exact H3].
 Qed.
 
-Lemma time_write_spec t : time_wf t -> t_zneg t = false -> time_write (time_val t) = scts t.
+Lemma scts_shape t : scts t = map semi2 [t_yy t; t_mo t; t_dd t; t_hh t; t_mi t; t_ss t] ++ [zone_octet (t_zneg t) (t_zq t)].
+Proof. reflexivity. Qed.
+
+Lemma decode_semi_app vs l : Forall (fun v => v < 100) vs -> decode_semi (map semi2 vs ++ l) = vs ++ decode_semi l.
 Proof.
-  intros Hwf Hz. pose proof Hwf as [Hy [Hm [Hd [Hh [Hmi [Hs Hzq]]]]]].
-  unfold time_write, time_val, time_civil. rewrite go_date_valid by assumption.
+  induction 1 as [|v r Hv _ IH]; [reflexivity|]. cbn [map app decode_semi].
+  destruct (semi2_nibbles v Hv) as [Hl Hh]. rewrite Hl, Hh.
+  destruct (N.eqb_spec (v mod 10) 15) as [E|_]; [lia|]. rewrite IH. f_equal. lia.
+Qed.
+
+Lemma idx7 {A} (a b c d e f g : A) :
+  idx [a; b; c; d; e; f; g] 0 = Ok a /\ idx [a; b; c; d; e; f; g] 1 = Ok b /\ idx [a; b; c; d; e; f; g] 2 = Ok c /\
+  idx [a; b; c; d; e; f; g] 3 = Ok d /\ idx [a; b; c; d; e; f; g] 4 = Ok e /\ idx [a; b; c; d; e; f; g] 5 = Ok f /\
+  idx [a; b; c; d; e; f; g] 6 = Ok g.
+Proof. repeat split; reflexivity. Qed.
+
+Lemma time_read_spec t rest :
+  time_wf t -> time_read_gen false (scts t ++ rest) = Ok (time_val t, rest).
+Proof.
+  intros Hwf. pose proof Hwf as [Hy [Hm [Hd [Hh [Hmi [Hs Hzq]]]]]]. pose proof (days_in_month_le (t_yy t) (t_mo t)).
+  unfold time_read_gen. rewrite read_n_exact; [|reflexivity|lia].
+  cbn [obind]. rewrite scts_shape at 2. rewrite decode_semi_app by (repeat constructor; lia).
+  destruct (zone_facts (t_zneg t) (t_zq t) Hzq) as [Hhi [Hzone _]].
+  cbn [decode_semi]. destruct (N.eqb_spec (hi4 (zone_octet (t_zneg t) (t_zq t))) 15); [contradiction|].
+  unfold time_of_blocks. cbn [negb andb app List.length N.of_nat Pos.of_succ_nat Pos.succ N.ltb N.compare Pos.compare Pos.compare_cont].
+  unfold scts at 1.
+  repeat match goal with |- context [idx [?a; ?b; ?c; ?d; ?e; ?f; ?g] ?i] =>
+    let H := fresh in pose proof (idx7 a b c d e f g) as H;
+    destruct H as [H0 [H1 [H2 [H3 [H4 [H5 H6]]]]]]; rewrite ?H0, ?H1, ?H2, ?H3, ?H4, ?H5, ?H6; clear H0 H1 H2 H3 H4 H5 H6 end.
+  cbn [obind].
+  fold (zone_octet (t_zneg t) (t_zq t)). rewrite Hzone. reflexivity.
+Qed.
+
+Lemma or_last_snoc l b m : or_last (l ++ [b]) m = l ++ [N.lor b m].
+Proof.
+  induction l as [|x r IH]; [reflexivity|]. cbn [app].
+  assert (exists y t, r ++ [b] = y :: t) as [y [t E]] by (destruct r; cbn; eauto).
+  rewrite E. change (or_last (x :: y :: t) m) with (x :: or_last (y :: t) m). rewrite <- E. rewrite IH. reflexivity.
+Qed.
+
+Lemma time_write_spec t : time_wf t -> time_write (time_val t) = scts t.
+Proof.
+  intros Hwf. pose proof Hwf as [Hy [Hm [Hd [Hh [Hmi [Hs Hzq]]]]]].
+  unfold time_write, time_val, time_civil, time_negative. rewrite go_date_valid by assumption.
   replace (2000 + Z.of_N (t_yy t) - 2000)%Z with (Z.of_N (t_yy t)) by lia.
+  replace (Z.abs (if t_zneg t then - Z.of_N (t_zq t) else Z.of_N (t_zq t))) with (Z.of_N (t_zq t)) by (destruct (t_zneg t); lia).
   change [Z.of_N (t_yy t); Z.of_N (t_mo t); Z.of_N (t_dd t); Z.of_N (t_hh t); Z.of_N (t_mi t); Z.of_N (t_ss t); Z.of_N (t_zq t)]
     with (map Z.of_N (time_vals t)).
   rewrite encode_semi_semi2 by (apply time_vals_small; exact Hwf).
-  rewrite scts_positive by exact Hz. reflexivity.
+  rewrite scts_shape. unfold time_vals.
+  change (map semi2 [t_yy t; t_mo t; t_dd t; t_hh t; t_mi t; t_ss t; t_zq t])
+    with (map semi2 [t_yy t; t_mo t; t_dd t; t_hh t; t_mi t; t_ss t] ++ [semi2 (t_zq t)]).
+  destruct (t_zneg t) eqn:Ez.
+  - rewrite or_last_snoc. destruct (zone_facts true (t_zq t) Hzq) as [_ [_ ->]]. reflexivity.
+  - unfold zone_octet. rewrite N.add_0_r. reflexivity.
 Qed.
 
-(* the decoded value: civil date/time 2000+yy … and the offset in quarter hours (9.2.3.11) *)
-Lemma time_value_spec t : time_wf t -> t_zneg t = false ->
+(* the decoded value: civil date/time 2000+yy … and the SIGNED offset in quarter hours (9.2.3.11) *)
+Lemma time_value_spec t : time_wf t ->
   time_civil (time_val t) =
   ((2000 + Z.of_N (t_yy t))%Z, Z.of_N (t_mo t), Z.of_N (t_dd t), Z.of_N (t_hh t), Z.of_N (t_mi t), Z.of_N (t_ss t),
    time_offset_q t).
 Proof.
-  intros [Hy [Hm [Hd [Hh [Hmi [Hs Hzq]]]]]] Hz. unfold time_val, time_civil, time_offset_q.
-  rewrite go_date_valid by assumption. rewrite Hz. reflexivity.
+  intros [Hy [Hm [Hd [Hh [Hmi [Hs Hzq]]]]]]. unfold time_val, time_civil, time_offset_q.
+  rewrite go_date_valid by assumption. reflexivity.
 Qed.
 
 (* ------------------------------------------------------------------ user data *)
@@ -451,11 +507,24 @@ Qed.
 Lemma ud_val_length u : List.length (ud_val u) = N.to_nat (udl u).
 Proof. unfold ud_val. rewrite app_length, repeat_length. pose proof (ud_octets_le u). lia. Qed.
 
-Lemma ud_write u : udl u < 256 -> last (ud_octets u) 1 <> 0 ->
-  (blen (ud_val u) mod 256) :: trim_right0 (ud_val u) = udl u :: ud_octets u.
+(* Marshal after the D22 fix: TP-UDL, then the octets the data coding scheme calls for *)
+Lemma ud_write dcs u : dcs < 256 -> ud_wf dcs u ->
+  (if counts_septets dcs
+   then let k := (blen (ud_val u) * 7 + 7) / 8 in
+        if blen (ud_val u) <? k then Panic else Ok ((blen (ud_val u) mod 256) :: firstn (N.to_nat k) (ud_val u))
+   else Ok ((blen (ud_val u) mod 256) :: ud_val u)) = Ok (udl u :: ud_octets u).
 Proof.
-  intros Hl Hlast. unfold blen. rewrite ud_val_length, N2Nat.id, N.mod_small by exact Hl.
-  unfold ud_val. rewrite trim_right0_app_zeros, trim_right0_id by exact Hlast. reflexivity.
+  intros Hd Hw. rewrite (dcs_model dcs Hd).
+  assert (Hb : blen (ud_val u) = udl u) by (unfold blen; rewrite ud_val_length, N2Nat.id; reflexivity).
+  rewrite Hb. destruct u as [ss|os]; cbn [ud_wf] in Hw; destruct Hw as [-> [_ Hl]]; cbn [udl ud_octets] in *.
+  - cbn zeta. unfold nlen in *. destruct (N.ltb_spec (N.of_nat (List.length ss)) ((N.of_nat (List.length ss) * 7 + 7) / 8)); [lia|].
+    rewrite N.mod_small by lia. f_equal. f_equal.
+    unfold ud_val. cbn [ud_octets udl].
+    replace (N.to_nat ((N.of_nat (List.length ss) * 7 + 7) / 8)) with (List.length (pack7 ss) + 0)%nat
+      by (rewrite pack7_length; unfold packed_len; lia).
+    rewrite firstn_app_2. cbn [firstn]. apply app_nil_r.
+  - unfold nlen in *. rewrite N.mod_small by lia. f_equal. f_equal.
+    unfold ud_val. cbn [ud_octets udl]. unfold nlen. rewrite Nat2N.id, Nat.sub_diag. apply app_nil_r.
 Qed.
 
 Lemma udl_small dcs u : ud_wf dcs u -> udl u < 256.
@@ -543,27 +612,24 @@ Proof.
     rewrite encode_semi_semi2 by (repeat constructor; lia). cbn. reflexivity.
 Qed.
 
-Definition vp_known_ok (v : s_validity) : Prop :=
-  match v with VpAbsolute t => t_zneg t = false | _ => True end.
-
-Lemma vp_read_spec v rest : vp_wf v -> vp_known_ok v ->
+Lemma vp_read_spec v rest : vp_wf v ->
   (if vpf_bits v =? 1 then do (x, r) <- enh_read_gen false (vp_octets v ++ rest); Ok (TVVP x, r)
    else if vpf_bits v =? 2 then do (d, r) <- rel_read (vp_octets v ++ rest); Ok (TVVP (VPRel d), r)
    else if vpf_bits v =? 3 then do (x, r) <- time_read_gen false (vp_octets v ++ rest); Ok (TVVP (VPAbs x), r)
    else Ok (TVVP VPNone, vp_octets v ++ rest)) = Ok (TVVP (vp_val v), rest).
 Proof.
-  intros Hwf Hk. destruct v as [|x|e|t]; cbn [vpf_bits vp_octets vp_val vp_wf vp_known_ok] in *.
+  intros Hwf. destruct v as [|x|e|t]; cbn [vpf_bits vp_octets vp_val vp_wf] in *.
   - reflexivity.
   - cbn [N.eqb Pos.eqb app]. rewrite rel_read_cons. cbn [obind]. destruct (rel_model x Hwf) as [-> _]. reflexivity.
   - cbn [N.eqb Pos.eqb]. rewrite enh_read_spec by exact Hwf. reflexivity.
   - cbn [N.eqb Pos.eqb]. rewrite time_read_spec by assumption. reflexivity.
 Qed.
 
-Lemma vp_write_spec g vpf f v : vp_wf v -> vp_known_ok v -> f_ekind f = KIface ->
-  field_write g vpf f (TVVP (vp_val v)) = Ok (vp_octets v).
+Lemma vp_write_spec g vpf dcs f v : vp_wf v -> f_ekind f = KIface ->
+  field_write g vpf dcs f (TVVP (vp_val v)) = Ok (vp_octets v).
 Proof.
-  intros Hwf Hk Hf. unfold field_write. rewrite Hf.
-  destruct v as [|x|e|t]; cbn [vp_val vp_octets vp_wf vp_known_ok] in *.
+  intros Hwf Hf. unfold field_write. rewrite Hf.
+  destruct v as [|x|e|t]; cbn [vp_val vp_octets vp_wf] in *.
   - reflexivity.
   - destruct (rel_model x Hwf) as [<- E]. unfold rel_octet in E. fold rel_octet in E. rewrite E. reflexivity.
   - apply enh_write_spec. exact Hwf.
@@ -576,12 +642,11 @@ Definition SF := fs_fields fs_SubmitFlags.
 Definition VPFname : string := "ValidityPeriodFormat".
 
 Lemma deliver_flags_sweep :
-  forallb (fun b => marshal_flags DF (unmarshal_flags DF b 0) 0 =? b mod 64) oct256 = true.
+  forallb (fun b => marshal_flags DF (unmarshal_flags DF b 0) 0 =? b) oct256 = true.
 Proof. vm_compute. reflexivity. Qed.
-Lemma deliver_flags_rt b : b < 64 -> marshal_flags DF (unmarshal_flags DF b 0) 0 = b.
+Lemma deliver_flags_rt b : b < 256 -> marshal_flags DF (unmarshal_flags DF b 0) 0 = b.
 Proof.
-  intros Hb. pose proof (sweep_oct _ deliver_flags_sweep b ltac:(lia)) as H. cbn beta in H.
-  apply N.eqb_eq in H. rewrite H. apply N.mod_small. exact Hb.
+  intros Hb. pose proof (sweep_oct _ deliver_flags_sweep b Hb) as H. cbn beta in H. apply N.eqb_eq in H. exact H.
 Qed.
 
 Definition submit_vals (b : N) : list N := set_direction SF (unmarshal_flags SF b 0) 1.
@@ -608,12 +673,10 @@ Proof.
     destruct (s_vp t); cbn; reflexivity.
 Qed.
 Lemma deliver_first_octet_facts t :
-  deliver_first_octet t < 256 /\ N.land (deliver_first_octet t) 3 = 0 /\
-  (d_udhi t = false -> d_rp t = false -> deliver_first_octet t < 64).
+  deliver_first_octet t < 256 /\ N.land (deliver_first_octet t) 3 = 0.
 Proof.
   unfold deliver_first_octet.
-  destruct (d_mms t), (d_bit3 t), (d_bit4 t), (d_sri t), (d_udhi t), (d_rp t); cbn;
-    (split; [lia|split; [reflexivity|intros; try discriminate; lia]]).
+  destruct (d_mms t), (d_bit3 t), (d_bit4 t), (d_sri t), (d_udhi t), (d_rp t); cbn; (split; [lia|reflexivity]).
 Qed.
 
 (* ------------------------------------------------------------------ getType on a laid-out TPDU *)
@@ -660,7 +723,7 @@ Lemma fr_sc_empty g st f rest :
   f_dkind f = KSCAddr -> field_read false g st f (0 :: rest) = Ok (TVAddr addr0, rest).
 Proof. intros Hf. unfold field_read. rewrite Hf. reflexivity. Qed.
 Lemma fr_addr st f a rest :
-  f_dkind f = KAddr -> addr_wf a -> addr_dec_ok a ->
+  f_dkind f = KAddr -> addr_wf a -> addr_ok a ->
   field_read false g7_table st f (tp_addr a ++ rest) = Ok (TVAddr (addr_val a), rest).
 Proof. intros Hf Hw Hd. unfold field_read. rewrite Hf. rewrite (addr_read_spec a rest Hw Hd). reflexivity. Qed.
 Lemma fr_byte g st f b rest : f_dkind f = KByte -> field_read false g st f (b :: rest) = Ok (TVByte b, rest).
@@ -674,24 +737,25 @@ Lemma fr_flags_dir g st f fs b d rest :
   field_read false g st f (b :: rest) = Ok (TVFlags (set_direction (fs_fields fs) (unmarshal_flags (fs_fields fs) b 0) d), rest).
 Proof. intros Hf Hd Ht. unfold field_read. rewrite Hf. cbn [read_byte obind]. rewrite Hd, Ht. reflexivity. Qed.
 Lemma fr_time g st f t rest :
-  f_dkind f = KTime -> time_wf t -> t_zneg t = false ->
+  f_dkind f = KTime -> time_wf t ->
   field_read false g st f (scts t ++ rest) = Ok (TVTime (time_val t), rest).
-Proof. intros Hf Hw Hz. unfold field_read. rewrite Hf. rewrite time_read_spec by assumption. reflexivity. Qed.
+Proof. intros Hf Hw. unfold field_read. rewrite Hf. rewrite time_read_spec by assumption. reflexivity. Qed.
 Lemma fr_ud g st f u :
   f_dkind f = KBytes -> field_read false g st f (udl u :: ud_octets u) = Ok (TVBytes (ud_val u), []).
 Proof. intros Hf. unfold field_read. rewrite Hf. cbn [read_byte obind]. rewrite ud_read. reflexivity. Qed.
 Lemma fr_vp g st f v rest :
-  f_dkind f = KIface -> f_tp f = "VP"%string -> u_vpf st = vpf_bits v -> vp_wf v -> vp_known_ok v ->
+  f_dkind f = KIface -> f_tp f = "VP"%string -> u_vpf st = vpf_bits v -> vp_wf v ->
   field_read false g st f (vp_octets v ++ rest) = Ok (TVVP (vp_val v), rest).
 Proof.
-  intros Hf Htp Hst Hw Hk. unfold field_read. rewrite Hf, Htp, Hst. cbn [String.eqb Ascii.eqb Bool.eqb].
+  intros Hf Htp Hst Hw. unfold field_read. rewrite Hf, Htp, Hst. cbn [String.eqb Ascii.eqb Bool.eqb].
   apply vp_read_spec; assumption.
 Qed.
 
-Lemma fw_ud g vpf f u dcs : f_ekind f = KBytes -> ud_wf dcs u -> last (ud_octets u) 1 <> 0 ->
-  field_write g vpf f (TVBytes (ud_val u)) = Ok (udl u :: ud_octets u).
+Lemma fw_ud g vpf f u dcs : f_ekind f = KBytes -> f_tp f = "UD"%string -> dcs < 256 -> ud_wf dcs u ->
+  field_write g vpf dcs f (TVBytes (ud_val u)) = Ok (udl u :: ud_octets u).
 Proof.
-  intros Hf Hw Hl. unfold field_write. rewrite Hf. rewrite ud_write; [reflexivity|eapply udl_small; eauto|exact Hl].
+  intros Hf Htp Hd Hw. unfold field_write. rewrite Hf, Htp. cbn [String.eqb Ascii.eqb Bool.eqb andb].
+  apply ud_write; assumption.
 Qed.
 
 (* ------------------------------------------------------------------ SMS-DELIVER *)
@@ -727,14 +791,14 @@ Lemma tp_addr_head a : exists g r, tp_addr a = g :: r.
 Proof. unfold tp_addr. destruct (sa_val a); eauto. Qed.
 
 Theorem deliver_decode t :
-  deliver_wf t -> addr_dec_ok (d_oa t) -> t_zneg (d_scts t) = false ->
+  deliver_wf t -> addr_ok (d_oa t) ->
   sms_unmarshal (layout_deliver t) = Ok ("Deliver"%string, deliver_vals t).
 Proof.
-  intros [Hsc [Hoa [Hpid [Hdcs [Hts Hud]]]]] Hnum Hz.
+  intros [Hsc [Hoa [Hpid [Hdcs [Hts Hud]]]]] Hnum.
   pose proof Hsc as [Hsc_wf Hsc_num].
   assert (Hscv : sa_val (d_sc t) = Digits (digits_of (d_sc t))).
   { apply numeric_val. unfold is_numeric. destruct (sa_val (d_sc t)); [exact I|contradiction]. }
-  destruct (deliver_first_octet_facts t) as [Hfo [Hmti _]].
+  destruct (deliver_first_octet_facts t) as [Hfo Hmti].
   unfold sms_unmarshal, unmarshal, unmarshal_gen, layout_deliver.
   (* type detection *)
   destruct (sc_addr_shape _ Hsc) as [l [p [Esc [Hl Hl0]]]].
@@ -756,67 +820,67 @@ Proof.
   cbn [state_after f_dkind].
   erewrite fields_read_step; [|reflexivity|apply fr_byte; reflexivity].
   cbn [state_after f_dkind].
-  erewrite fields_read_step; [|reflexivity|apply fr_time; [reflexivity|exact Hts|exact Hz]].
+  erewrite fields_read_step; [|reflexivity|apply fr_time; [reflexivity|exact Hts]].
   cbn [state_after f_dkind].
   erewrite fields_read_step; [|reflexivity|apply fr_ud; reflexivity].
   cbn [fields_read obind]. reflexivity.
 Qed.
 
 (* ------------------------------------------------------------------ writing single fields *)
-Lemma fields_write_step g vpf f fr v vr a :
-  field_write g vpf f v = Ok a ->
-  fields_write g vpf (f :: fr) (v :: vr) = (do b <- fields_write g vpf fr vr; Ok (a ++ b)).
+Lemma fields_write_step g vpf dcs f fr v vr a :
+  field_write g vpf dcs f v = Ok a ->
+  fields_write g vpf dcs (f :: fr) (v :: vr) = (do b <- fields_write g vpf (dcs_after dcs f v) fr vr; Ok (a ++ b)).
 Proof. intros H. cbn [fields_write]. rewrite H. reflexivity. Qed.
 
-Lemma fw_sc g vpf f a ds : f_ekind f = KSCAddr -> sa_val a = Digits ds -> addr_wf a ->
-  field_write g vpf f (TVAddr (addr_num_val a ds)) = Ok (sc_addr a).
+Lemma fw_sc g vpf dcs f a ds : f_ekind f = KSCAddr -> sa_val a = Digits ds -> addr_wf a ->
+  field_write g vpf dcs f (TVAddr (addr_num_val a ds)) = Ok (sc_addr a).
 Proof. intros Hf Hv Hw. unfold field_write. rewrite Hf, sc_write_numeric by assumption. reflexivity. Qed.
-Lemma fw_sc_empty g vpf f : f_ekind f = KSCAddr -> field_write g vpf f (TVAddr addr0) = Ok [0].
+Lemma fw_sc_empty g vpf dcs f : f_ekind f = KSCAddr -> field_write g vpf dcs f (TVAddr addr0) = Ok [0].
 Proof. intros Hf. unfold field_write. rewrite Hf. reflexivity. Qed.
-Lemma fw_addr vpf f a : f_ekind f = KAddr -> addr_wf a -> addr_rt_ok a ->
-  field_write g7_table vpf f (TVAddr (addr_val a)) = Ok (tp_addr a).
+Lemma fw_addr vpf dcs f a : f_ekind f = KAddr -> addr_wf a -> addr_ok a ->
+  field_write g7_table vpf dcs f (TVAddr (addr_val a)) = Ok (tp_addr a).
 Proof. intros Hf Hw Hd. unfold field_write. rewrite Hf, addr_write_spec by assumption. reflexivity. Qed.
-Lemma fw_byte g vpf f b : f_ekind f = KByte -> field_write g vpf f (TVByte b) = Ok [b].
+Lemma fw_byte g vpf dcs f b : f_ekind f = KByte -> field_write g vpf dcs f (TVByte b) = Ok [b].
 Proof. intros Hf. unfold field_write. rewrite Hf. reflexivity. Qed.
-Lemma fw_time g vpf f t : f_ekind f = KTime -> time_wf t -> t_zneg t = false ->
-  field_write g vpf f (TVTime (time_val t)) = Ok (scts t).
-Proof. intros Hf Hw Hz. unfold field_write. rewrite Hf, time_write_spec by assumption. reflexivity. Qed.
-Lemma fw_flags_plain g vpf f fs vals : f_ekind f = KFlags fs -> String.eqb (fs_name fs) "SubmitFlags" = false ->
-  field_write g vpf f (TVFlags vals) = Ok [marshal_flags (fs_fields fs) vals 0].
+Lemma fw_time g vpf dcs f t : f_ekind f = KTime -> time_wf t ->
+  field_write g vpf dcs f (TVTime (time_val t)) = Ok (scts t).
+Proof. intros Hf Hw. unfold field_write. rewrite Hf, time_write_spec by assumption. reflexivity. Qed.
+Lemma fw_flags_plain g vpf dcs f fs vals : f_ekind f = KFlags fs -> String.eqb (fs_name fs) "SubmitFlags" = false ->
+  field_write g vpf dcs f (TVFlags vals) = Ok [marshal_flags (fs_fields fs) vals 0].
 Proof. intros Hf Hn. unfold field_write. rewrite Hf, Hn. reflexivity. Qed.
-Lemma fw_flags_submit g vpf f fs vals : f_ekind f = KFlags fs -> String.eqb (fs_name fs) "SubmitFlags" = true ->
-  field_write g vpf f (TVFlags vals) =
+Lemma fw_flags_submit g vpf dcs f fs vals : f_ekind f = KFlags fs -> String.eqb (fs_name fs) "SubmitFlags" = true ->
+  field_write g vpf dcs f (TVFlags vals) =
   Ok [marshal_flags (fs_fields fs) (flag_put (fs_fields fs) vals "ValidityPeriodFormat" vpf) 0].
 Proof. intros Hf Hn. unfold field_write. rewrite Hf, Hn. reflexivity. Qed.
 
-(* known classes of SMS-DELIVER (KNOWN_FINDINGS.txt), as predicates on the spec value *)
-Definition ud_ends_in_zero (u : s_userdata) : Prop := last (ud_octets u) 1 = 0.   (* D22 *)
-
+(* THE ROUND TRIP, SMS-DELIVER.  Only exclusion: the alphanumeric-address classes of [addr_ok]. *)
 Theorem deliver_roundtrip t :
-  deliver_wf t -> addr_rt_ok (d_oa t) ->                    (* not D21 (alphanumeric: plain text, even semi-octet count) *)
-  d_udhi t = false -> d_rp t = false ->                       (* not D24 *)
-  t_zneg (d_scts t) = false ->                                (* not D19 *)
-  ~ ud_ends_in_zero (d_ud t) ->                               (* not D22 *)
+  deliver_wf t -> addr_ok (d_oa t) ->
   sms_remarshal (layout_deliver t) = Ok (layout_deliver t).
 Proof.
-  intros Hwf Hnum Hudhi Hrp Hz Hud0.
-  assert (Hdec : addr_dec_ok (d_oa t)) by (apply addr_rt_dec; [apply Hwf|exact Hnum]).
-  unfold sms_remarshal, remarshal. fold sms_unmarshal. rewrite (deliver_decode t Hwf Hdec Hz). cbn [obind].
+  intros Hwf Hnum.
+  unfold sms_remarshal, remarshal. fold sms_unmarshal. rewrite (deliver_decode t Hwf Hnum). cbn [obind].
   destruct Hwf as [Hsc [Hoa [Hpid [Hdcs [Hts Hud]]]]]. pose proof Hsc as [Hsc_wf Hsc_num].
   assert (Hscv : sa_val (d_sc t) = Digits (digits_of (d_sc t))).
   { apply numeric_val. unfold is_numeric. destruct (sa_val (d_sc t)); [exact I|contradiction]. }
-  destruct (deliver_first_octet_facts t) as [_ [_ Hfo64]]. specialize (Hfo64 Hudhi Hrp).
+  destruct (deliver_first_octet_facts t) as [Hfo _].
   unfold marshal. change (e_layouts sms_env) with tpdu_layouts. rewrite find_deliver.
   cbn [tl_fields e_g7 sms_env]. set (vpf := vpf_scan _ _ _). clearbody vpf.
   unfold deliver_fields, deliver_vals.
   erewrite fields_write_step; [|apply fw_sc; [reflexivity|exact Hscv|exact Hsc_wf]].
-  erewrite fields_write_step; [|apply (fw_flags_plain _ _ _ fs_DeliverFlags); reflexivity].
+  cbn [dcs_after f_ekind].
+  erewrite fields_write_step; [|apply (fw_flags_plain _ _ _ _ fs_DeliverFlags); reflexivity].
+  cbn [dcs_after f_ekind].
   erewrite fields_write_step; [|apply fw_addr; [reflexivity|exact Hoa|exact Hnum]].
+  cbn [dcs_after f_ekind].
   erewrite fields_write_step; [|apply fw_byte; reflexivity].
+  cbn [dcs_after f_ekind f_tp String.eqb Ascii.eqb Bool.eqb].
   erewrite fields_write_step; [|apply fw_byte; reflexivity].
-  erewrite fields_write_step; [|apply fw_time; [reflexivity|exact Hts|exact Hz]].
-  erewrite fields_write_step; [|eapply fw_ud; [reflexivity|exact Hud|exact Hud0]].
-  cbn [fields_write obind]. fold DF. rewrite (deliver_flags_rt _ Hfo64).
+  cbn [dcs_after f_ekind f_tp String.eqb Ascii.eqb Bool.eqb].
+  erewrite fields_write_step; [|apply fw_time; [reflexivity|exact Hts]].
+  cbn [dcs_after f_ekind].
+  erewrite fields_write_step; [|eapply fw_ud; [reflexivity|reflexivity|exact Hdcs|exact Hud]].
+  cbn [fields_write obind]. fold DF. rewrite (deliver_flags_rt _ Hfo).
   unfold layout_deliver. rewrite app_nil_r. cbn [app]. reflexivity.
 Qed.
 
@@ -831,10 +895,10 @@ Definition submit_vals_list (t : s_submit) : list tval :=
    TVBytes (ud_val (s_ud t))].
 
 Theorem submit_decode t :
-  submit_wf t -> addr_dec_ok (s_da t) -> vp_known_ok (s_vp t) ->
+  submit_wf t -> addr_ok (s_da t) ->
   sms_unmarshal (layout_submit t) = Ok ("Submit"%string, submit_vals_list t).
 Proof.
-  intros [Hmr [Hda [Hpid [Hdcs [Hvp Hud]]]]] Hnum Hk.
+  intros [Hmr [Hda [Hpid [Hdcs [Hvp Hud]]]]] Hnum.
   destruct (submit_first_octet_facts t) as [Hfo [Hvpf Hmti]].
   unfold sms_unmarshal, unmarshal, unmarshal_gen, layout_submit.
   assert (Egt : get_type (0 :: submit_first_octet t :: s_mr t :: tp_addr (s_da t) ++ s_pid t :: s_dcs t ::
@@ -856,7 +920,7 @@ Proof.
   cbn [state_after f_dkind].
   erewrite fields_read_step; [|reflexivity|apply fr_byte; reflexivity].
   cbn [state_after f_dkind].
-  erewrite fields_read_step; [|reflexivity|apply fr_vp; [reflexivity|reflexivity| |exact Hvp|exact Hk]].
+  erewrite fields_read_step; [|reflexivity|apply fr_vp; [reflexivity|reflexivity| |exact Hvp]].
   2: { cbn [u_vpf]. change (flag_get SF (submit_vals (submit_first_octet t)) VPFname = vpf_bits (s_vp t)).
        destruct (submit_flags_rt _ Hfo) as [E _]. rewrite E. exact Hvpf. }
   cbn [state_after f_dkind].
@@ -870,15 +934,13 @@ Proof. destruct v; reflexivity. Qed.
 Lemma submit_vpf_scan a b c d e f0 v h : vpf_scan submit_fields [a; b; c; d; e; f0; TVVP v; h] 0 = vpf_of v.
 Proof. destruct v; reflexivity. Qed.
 
+(* THE ROUND TRIP, SMS-SUBMIT *)
 Theorem submit_roundtrip t :
-  submit_wf t -> addr_rt_ok (s_da t) ->                      (* not D21 *)
-  vp_known_ok (s_vp t) ->                                     (* not D19 (absolute validity period) *)
-  ~ ud_ends_in_zero (s_ud t) ->                               (* not D22 *)
+  submit_wf t -> addr_ok (s_da t) ->
   sms_remarshal (layout_submit t) = Ok (layout_submit t).
 Proof.
-  intros Hwf Hnum Hk Hud0.
-  assert (Hdec : addr_dec_ok (s_da t)) by (apply addr_rt_dec; [apply Hwf|exact Hnum]).
-  unfold sms_remarshal, remarshal. fold sms_unmarshal. rewrite (submit_decode t Hwf Hdec Hk). cbn [obind].
+  intros Hwf Hnum.
+  unfold sms_remarshal, remarshal. fold sms_unmarshal. rewrite (submit_decode t Hwf Hnum). cbn [obind].
   destruct Hwf as [Hmr [Hda [Hpid [Hdcs [Hvp Hud]]]]].
   destruct (submit_first_octet_facts t) as [Hfo [Hvpf Hmti]].
   unfold marshal. change (e_layouts sms_env) with tpdu_layouts. rewrite find_submit.
@@ -887,13 +949,20 @@ Proof.
   { unfold submit_vals_list. rewrite submit_vpf_scan. apply vpf_of_vp_val. }
   rewrite Evpf. unfold submit_fields, submit_vals_list.
   erewrite fields_write_step; [|apply fw_sc_empty; reflexivity].
-  erewrite fields_write_step; [|apply (fw_flags_submit _ _ _ fs_SubmitFlags); reflexivity].
+  cbn [dcs_after f_ekind].
+  erewrite fields_write_step; [|apply (fw_flags_submit _ _ _ _ fs_SubmitFlags); reflexivity].
+  cbn [dcs_after f_ekind].
   erewrite fields_write_step; [|apply fw_byte; reflexivity].
+  cbn [dcs_after f_ekind f_tp String.eqb Ascii.eqb Bool.eqb].
   erewrite fields_write_step; [|apply fw_addr; [reflexivity|exact Hda|exact Hnum]].
+  cbn [dcs_after f_ekind].
   erewrite fields_write_step; [|apply fw_byte; reflexivity].
+  cbn [dcs_after f_ekind f_tp String.eqb Ascii.eqb Bool.eqb].
   erewrite fields_write_step; [|apply fw_byte; reflexivity].
-  erewrite fields_write_step; [|apply vp_write_spec; [exact Hvp|exact Hk|reflexivity]].
-  erewrite fields_write_step; [|eapply fw_ud; [reflexivity|exact Hud|exact Hud0]].
+  cbn [dcs_after f_ekind f_tp String.eqb Ascii.eqb Bool.eqb].
+  erewrite fields_write_step; [|apply vp_write_spec; [exact Hvp|reflexivity]].
+  cbn [dcs_after f_ekind].
+  erewrite fields_write_step; [|eapply fw_ud; [reflexivity|reflexivity|exact Hdcs|exact Hud]].
   cbn [fields_write obind].
   destruct (submit_flags_rt _ Hfo) as [_ E]. rewrite Hvpf in E.
   change (marshal_flags _ (flag_put _ _ _ _) 0) with
@@ -902,18 +971,25 @@ Proof.
 Qed.
 
 (* ------------------------------------------------------------------ the decoded values are the standard's *)
-(* the address text: the digits in ASCII, or the characters of the septets in the alphabet table of
-   the running code ([alphabet_table] below compares that table with GSM 03.38 6.2.1) *)
+(* the address text: the digits in ASCII, or the characters of the septets in the tables of the running
+   code ([code_text]; [code_text_spec] / [g7_esc_is_spec] compare those tables with GSM 03.38 6.2.1) *)
 Definition addr_text_spec (a : s_addr) : list N :=
-  match sa_val a with Digits ds => ascii_digits ds | Alnum ss => map g7_rune ss end.
+  match sa_val a with Digits ds => ascii_digits ds | Alnum ss => code_text ss end.
 Lemma addr_val_text a : addr_val a = {| a_npi := sa_npi a; a_ton := sa_ton a; a_no := addr_text_spec a |}.
 Proof. unfold addr_val, addr_text_spec. destruct (sa_val a); reflexivity. Qed.
+(* … and against the standard: the same characters unless code 0x09 occurs (D16) *)
+Lemma addr_text_standard a : addr_wf a -> 
+  match sa_val a with
+  | Digits ds => addr_text_spec a = ascii_digits ds
+  | Alnum ss => ~ In 9 ss -> addr_text_spec a = gsm_text ss
+  end.
+Proof.
+  intros [_ [_ Hw]]. unfold addr_text_spec. destruct (sa_val a) as [ds|ss]; [reflexivity|].
+  destruct Hw as [_ [Hv _]]. intros H9. apply code_text_spec; assumption.
+Qed.
 
-(* (decoded address = digits as ASCII text with TON/NPI of the type-of-address octet; PID; DCS;
-   civil time 2000+yy.. with the signed quarter-hour offset; validity period in seconds per
-   9.2.3.12; user data octets, zero-filled up to TP-UDL) *)
 Theorem deliver_values t :
-  deliver_wf t -> addr_dec_ok (d_oa t) -> t_zneg (d_scts t) = false ->
+  deliver_wf t -> addr_ok (d_oa t) ->
   exists fl sc oa ts ud,
     sms_unmarshal (layout_deliver t) =
       Ok ("Deliver"%string, [TVAddr sc; TVFlags fl; TVAddr oa; TVByte (d_pid t); TVByte (d_dcs t); TVTime ts; TVBytes ud]) /\
@@ -923,9 +999,9 @@ Theorem deliver_values t :
                      Z.of_N (t_hh (d_scts t)), Z.of_N (t_mi (d_scts t)), Z.of_N (t_ss (d_scts t)), time_offset_q (d_scts t)) /\
     ud = ud_octets (d_ud t) ++ repeat 0 (N.to_nat (udl (d_ud t)) - List.length (ud_octets (d_ud t))).
 Proof.
-  intros Hwf Hnum Hz. do 5 eexists. split; [apply deliver_decode; assumption|].
+  intros Hwf Hnum. do 5 eexists. split; [apply deliver_decode; assumption|].
   split; [reflexivity|]. split; [apply addr_val_text|]. split; [|reflexivity].
-  apply time_value_spec; [apply Hwf|exact Hz].
+  apply time_value_spec. apply Hwf.
 Qed.
 
 Definition vp_seconds (v : s_validity) : option N :=
@@ -934,7 +1010,7 @@ Definition vp_decoded_seconds (v : vp) : option N :=
   match v with VPRel d => Some d | VPEnh d _ => Some d | _ => None end.
 
 Theorem submit_values t :
-  submit_wf t -> addr_dec_ok (s_da t) -> vp_known_ok (s_vp t) ->
+  submit_wf t -> addr_ok (s_da t) ->
   exists fl da v ud,
     sms_unmarshal (layout_submit t) =
       Ok ("Submit"%string, [TVAddr addr0; TVFlags fl; TVByte (s_mr t); TVAddr da; TVByte (s_pid t); TVByte (s_dcs t); TVVP v; TVBytes ud]) /\
@@ -945,141 +1021,115 @@ Theorem submit_values t :
     (forall e, s_vp t = VpEnhanced e -> v = VPEnh (enh_seconds e) (enh_indicator e)) /\
     ud = ud_octets (s_ud t) ++ repeat 0 (N.to_nat (udl (s_ud t)) - List.length (ud_octets (s_ud t))).
 Proof.
-  intros Hwf Hnum Hk. do 4 eexists. split; [apply submit_decode; assumption|].
+  intros Hwf Hnum. do 4 eexists. split; [apply submit_decode; assumption|].
   split; [apply addr_val_text|]. split; [apply vpf_of_vp_val|].
   split; [destruct (s_vp t); reflexivity|].
   split; [|split; [|reflexivity]].
   - intros ts E. destruct Hwf as [_ [_ [_ [_ [Hvp _]]]]]. rewrite E in *. eexists. split; [reflexivity|].
-    apply time_value_spec; [exact Hvp|exact Hk].
+    apply time_value_spec. exact Hvp.
   - intros e E. rewrite E. reflexivity.
 Qed.
 
-(* ------------------------------------------------------------------ witnesses: the known classes and the repaired defects *)
+(* ------------------------------------------------------------------ witnesses *)
+Ltac wf_tac := repeat (split || constructor || lia || reflexivity || (intro; discriminate) || exact I).
+
 Definition w_sc : s_addr := {| sa_ton := 1; sa_npi := 1; sa_val := Digits [3; 1; 6; 2; 4; 0; 0; 0; 0; 0; 0] |}.
 Definition w_oa : s_addr := {| sa_ton := 1; sa_npi := 1; sa_val := Digits [0; 0; 4; 9; 1; 7; 0; 0; 9; 8] |}.   (* even count, leading zeros *)
-Definition w_time : s_time := {| t_yy := 24; t_mo := 2; t_dd := 29; t_hh := 23; t_mi := 59; t_ss := 58; t_zneg := false; t_zq := 8 |}.
+(* leap day, GMT-5 (minus 20 quarter hours) *)
+Definition w_time : s_time := {| t_yy := 24; t_mo := 2; t_dd := 29; t_hh := 23; t_mi := 59; t_ss := 58; t_zneg := true; t_zq := 20 |}.
+Definition w_time_minus_zero : s_time := {| t_yy := 2; t_mo := 8; t_dd := 26; t_hh := 19; t_mi := 37; t_ss := 41; t_zneg := true; t_zq := 0 |}.
+(* non-vacuity, inside every class that was a known finding before the repairs: TP-UDHI and TP-RP set
+   (D24), negative zone (D19), 7-bit user data whose last octet is 0x00 (D22) *)
 Definition w_deliver : s_deliver :=
-  {| d_sc := w_sc; d_mms := true; d_bit3 := false; d_bit4 := false; d_sri := true; d_udhi := false; d_rp := false;
-     d_oa := w_oa; d_pid := 0; d_dcs := 0; d_scts := w_time; d_ud := UdSeptets [72; 101; 108; 108; 111; 32; 119; 111; 114] |}.
+  {| d_sc := w_sc; d_mms := true; d_bit3 := false; d_bit4 := false; d_sri := true; d_udhi := true; d_rp := true;
+     d_oa := w_oa; d_pid := 0; d_dcs := 0; d_scts := w_time; d_ud := UdSeptets [72; 101; 108; 108; 111; 32; 119; 0; 0] |}.
+(* absolute validity period with zone "minus zero", 8-bit data ending in 0x00, 12 h 30 min would be VpRelative 144 *)
 Definition w_submit : s_submit :=
   {| s_rd := true; s_srr := false; s_udhi := true; s_rp := true; s_mr := 7; s_da := w_oa; s_pid := 0; s_dcs := 4;
-     s_vp := VpRelative 144; s_ud := UdOctets [1; 2; 3] |}.
+     s_vp := VpAbsolute w_time_minus_zero; s_ud := UdOctets [65; 0; 0] |}.
+(* alphanumeric destination of six septets: "[" (ESC 0x3C), "A", CR, euro sign (ESC 0x65) *)
+Definition w_alnum_ok : s_submit :=
+  {| s_rd := false; s_srr := false; s_udhi := false; s_rp := false; s_mr := 7;
+     s_da := {| sa_ton := 5; sa_npi := 0; sa_val := Alnum [27; 60; 65; 13; 27; 101] |};
+     s_pid := 0; s_dcs := 4; s_vp := VpRelative 144; s_ud := UdOctets [1; 2; 3; 4] |}.
 
-Ltac wf_tac := repeat (split || constructor || lia || reflexivity || (intro; discriminate) || exact I).
 Lemma w_deliver_wf : deliver_wf w_deliver. Proof. unfold deliver_wf, sc_wf, addr_wf, time_wf, ud_wf; cbn. wf_tac. Qed.
-Lemma w_submit_wf : submit_wf w_submit. Proof. unfold submit_wf, addr_wf, vp_wf, ud_wf; cbn. wf_tac. Qed.
-
-(* non-vacuity: these inhabit the hypotheses of the round-trip theorems *)
+Lemma w_submit_wf : submit_wf w_submit. Proof. unfold submit_wf, addr_wf, vp_wf, time_wf, ud_wf; cbn. wf_tac. Qed.
+Lemma w_alnum_wf : submit_wf w_alnum_ok. Proof. unfold submit_wf, addr_wf, vp_wf, ud_wf; cbn. wf_tac. Qed.
 
 Lemma w_deliver_example :
   sms_remarshal (layout_deliver w_deliver) = Ok (layout_deliver w_deliver) /\
-  layout_deliver w_deliver = hx "07911326040000F0240A91009471008900004220923295858009C8329BFD06DDDF72".
-Proof.
-  split; [|vm_compute; reflexivity].
-  apply deliver_roundtrip; [exact w_deliver_wf|exact I|reflexivity|reflexivity|reflexivity|].
-  unfold ud_ends_in_zero. vm_compute. discriminate.
-Qed.
+  layout_deliver w_deliver = hx "07911326040000F0E40A91009471008900004220923295850A09C8329BFD06DD0100".
+Proof. split; [apply deliver_roundtrip; [exact w_deliver_wf|exact I]|vm_compute; reflexivity]. Qed.
 Lemma w_submit_example :
   sms_remarshal (layout_submit w_submit) = Ok (layout_submit w_submit) /\
-  layout_submit w_submit = hx "00D5070A91009471008900049003010203".
+  layout_submit w_submit = hx "00DD070A91009471008900042080629173140803410000".
+Proof. split; [apply submit_roundtrip; [exact w_submit_wf|exact I]|vm_compute; reflexivity]. Qed.
+Lemma w_alnum_example :
+  sms_remarshal (layout_submit w_alnum_ok) = Ok (layout_submit w_alnum_ok) /\
+  layout_submit w_alnum_ok = hx "0011070BD01B5EB0B129030004900401020304" /\
+  exists vs, sms_unmarshal (layout_submit w_alnum_ok) = Ok ("Submit"%string, vs) /\
+             nth_error vs 3 = Some (TVAddr {| a_npi := 0; a_ton := 5; a_no := [91; 65; 13; 8364] |}).
 Proof.
-  split; [|vm_compute; reflexivity].
-  apply submit_roundtrip; [exact w_submit_wf|exact I|exact I|]. unfold ud_ends_in_zero. vm_compute. discriminate.
+  split; [|split; [vm_compute; reflexivity|eexists; split; [vm_compute; reflexivity|reflexivity]]].
+  apply submit_roundtrip; [exact w_alnum_wf|].
+  unfold addr_ok, alnum_ok, ends_in_filler_cr; cbn. split; [lia|]. intros [_ [H _]]. discriminate H.
 Qed.
 
-(* D24: TP-UDHI set in an SMS-DELIVER is lost *)
-Definition w_d24 : s_deliver :=
-  {| d_sc := w_sc; d_mms := true; d_bit3 := false; d_bit4 := false; d_sri := false; d_udhi := true; d_rp := false;
-     d_oa := w_oa; d_pid := 0; d_dcs := 0; d_scts := w_time; d_ud := d_ud w_deliver |}.
-Lemma deliver_udhi_refuted :
-  deliver_wf w_d24 /\ d_udhi w_d24 = true /\ sms_remarshal (layout_deliver w_d24) <> Ok (layout_deliver w_d24) /\
-  exists out, sms_remarshal (layout_deliver w_d24) = Ok out /\ nth 8 out 0 = 4 /\ nth 8 (layout_deliver w_d24) 0 = 68.
-Proof.
-  split; [unfold deliver_wf, sc_wf, addr_wf, time_wf, ud_wf; cbn; wf_tac|]. split; [reflexivity|].
-  split; [vm_compute; discriminate|]. eexists. split; [vm_compute; reflexivity|]. split; reflexivity.
-Qed.
-
-(* D19: negative zone.  -20 quarter hours (GMT-5): decoded as +100 quarter hours and re-encoded as
-   eight octets; -1 quarter hour: the octets survive but the decoded offset is +81 quarter hours *)
-Definition w_time_neg (zq : N) : s_time := {| t_yy := 24; t_mo := 2; t_dd := 29; t_hh := 23; t_mi := 59; t_ss := 58; t_zneg := true; t_zq := zq |}.
-Definition w_d19 (zq : N) : s_deliver :=
-  {| d_sc := w_sc; d_mms := true; d_bit3 := false; d_bit4 := false; d_sri := false; d_udhi := false; d_rp := false;
-     d_oa := w_oa; d_pid := 0; d_dcs := 0; d_scts := w_time_neg zq; d_ud := d_ud w_deliver |}.
-Lemma deliver_negative_zone_refuted :
-  deliver_wf (w_d19 20) /\ deliver_wf (w_d19 1) /\
-  sms_remarshal (layout_deliver (w_d19 20)) <> Ok (layout_deliver (w_d19 20)) /\
-  (exists vs x, sms_unmarshal (layout_deliver (w_d19 1)) = Ok ("Deliver"%string, vs) /\ nth_error vs 5 = Some (TVTime x) /\
-     snd (time_civil x) = 81%Z /\ time_offset_q (d_scts (w_d19 1)) = (-1)%Z).
-Proof.
-  split; [unfold deliver_wf, sc_wf, addr_wf, time_wf, ud_wf; cbn; wf_tac|].
-  split; [unfold deliver_wf, sc_wf, addr_wf, time_wf, ud_wf; cbn; wf_tac|].
-  split; [vm_compute; discriminate|].
-  do 2 eexists. split; [vm_compute; reflexivity|]. split; [reflexivity|]. split; vm_compute; reflexivity.
-Qed.
-Definition w_d19_vp : s_submit :=
-  {| s_rd := false; s_srr := false; s_udhi := false; s_rp := false; s_mr := 7; s_da := w_oa; s_pid := 0; s_dcs := 4;
-     s_vp := VpAbsolute (w_time_neg 20); s_ud := UdOctets [1; 2; 3] |}.
-Lemma submit_negative_zone_refuted :
-  submit_wf w_d19_vp /\ sms_remarshal (layout_submit w_d19_vp) <> Ok (layout_submit w_d19_vp).
-Proof. split; [unfold submit_wf, addr_wf, vp_wf, time_wf, ud_wf; cbn; wf_tac|vm_compute; discriminate]. Qed.
-
-(* D22: 8-bit user data "A" 0x00 comes back as "A" with TP-UDL still 2 *)
-Definition w_d22 : s_submit :=
-  {| s_rd := false; s_srr := false; s_udhi := false; s_rp := false; s_mr := 7; s_da := w_oa; s_pid := 0; s_dcs := 4;
-     s_vp := VpAbsent; s_ud := UdOctets [65; 0] |}.
-Lemma trailing_zero_refuted :
-  submit_wf w_d22 /\ ud_ends_in_zero (s_ud w_d22) /\
-  sms_remarshal (layout_submit w_d22) = Ok (removelast (layout_submit w_d22)).
-Proof. split; [unfold submit_wf, addr_wf, vp_wf, ud_wf; cbn; wf_tac|]. split; vm_compute; reflexivity. Qed.
-
-(* D21: alphanumeric address "Info" (4 septets, 7 useful semi-octets): length octet comes back as 8 *)
-Definition w_alnum : s_addr := {| sa_ton := 5; sa_npi := 0; sa_val := Alnum [73; 110; 102; 111] |}.
+(* ---- the remaining known classes *)
+(* D21 (what is left): seven septets "message" - the seven fill bits are decoded as an eighth character '@'
+   and the length octet comes back as 14 instead of 13 *)
 Definition w_d21 : s_submit :=
-  {| s_rd := false; s_srr := false; s_udhi := false; s_rp := false; s_mr := 7; s_da := w_alnum; s_pid := 0; s_dcs := 4;
-     s_vp := VpAbsent; s_ud := UdOctets [1; 2; 3] |}.
-Lemma alnum_odd_refuted :
-  submit_wf w_d21 /\ nth 3 (layout_submit w_d21) 0 = 7 /\
-  exists out, sms_remarshal (layout_submit w_d21) = Ok out /\ nth 3 out 0 = 8.
+  {| s_rd := false; s_srr := false; s_udhi := false; s_rp := false; s_mr := 7;
+     s_da := {| sa_ton := 5; sa_npi := 1; sa_val := Alnum [109; 101; 115; 115; 97; 103; 101] |};
+     s_pid := 0; s_dcs := 4; s_vp := VpAbsent; s_ud := UdOctets [1; 2; 3] |}.
+Lemma alnum_seven_septets_refuted :
+  submit_wf w_d21 /\ nth 3 (layout_submit w_d21) 0 = 13 /\
+  sms_remarshal (layout_submit w_d21) <> Ok (layout_submit w_d21) /\
+  exists out vs, sms_remarshal (layout_submit w_d21) = Ok out /\ nth 3 out 0 = 14 /\
+    sms_unmarshal (layout_submit w_d21) = Ok ("Submit"%string, vs) /\
+    nth_error vs 3 = Some (TVAddr {| a_npi := 1; a_ton := 5; a_no := [109; 101; 115; 115; 97; 103; 101; 64] |}).
 Proof.
   split; [unfold submit_wf, addr_wf, vp_wf, ud_wf; cbn; wf_tac|]. split; [reflexivity|].
-  eexists. split; [vm_compute; reflexivity|reflexivity].
+  split; [vm_compute; discriminate|].
+  do 2 eexists. split; [vm_compute; reflexivity|]. split; [reflexivity|]. split; [vm_compute; reflexivity|reflexivity].
 Qed.
+(* eight septets ending in CR: the decoder takes the CR for the filler; the octets still round-trip *)
+Definition w_cr8 : s_submit :=
+  {| s_rd := false; s_srr := false; s_udhi := false; s_rp := false; s_mr := 7;
+     s_da := {| sa_ton := 5; sa_npi := 1; sa_val := Alnum [109; 101; 115; 115; 97; 103; 101; 13] |};
+     s_pid := 0; s_dcs := 4; s_vp := VpAbsent; s_ud := UdOctets [1; 2; 3] |}.
+Lemma alnum_eight_septets_cr_refuted :
+  submit_wf w_cr8 /\ ends_in_filler_cr [109; 101; 115; 115; 97; 103; 101; 13] /\
+  sms_remarshal (layout_submit w_cr8) = Ok (layout_submit w_cr8) /\
+  exists vs, sms_unmarshal (layout_submit w_cr8) = Ok ("Submit"%string, vs) /\
+    nth_error vs 3 = Some (TVAddr {| a_npi := 1; a_ton := 5; a_no := [109; 101; 115; 115; 97; 103; 101] |}) /\
+    gsm_text [109; 101; 115; 115; 97; 103; 101; 13] = [109; 101; 115; 115; 97; 103; 101; 13].
+Proof.
+  split; [unfold submit_wf, addr_wf, vp_wf, ud_wf; cbn; wf_tac|].
+  split; [unfold ends_in_filler_cr; cbn; wf_tac|]. split; [vm_compute; reflexivity|].
+  eexists. split; [vm_compute; reflexivity|]. split; reflexivity.
+Qed.
+(* D16: code 0x09 is U+00E7 in the code's table, U+00C7 in the standard *)
+Lemma alphabet_09_refuted : g7_rune 9 = 231 /\ gsm_char 9 = 199 /\ code_text [9] <> gsm_text [9].
+Proof. split; [vm_compute; reflexivity|]. split; [vm_compute; reflexivity|]. vm_compute. discriminate. Qed.
 
-(* D20 (repaired): before the fix the length octet of a numeric address was 2*octets-1 — for the
-   ten digits of w_oa that is 9 — the model of the repaired code writes 10 *)
+(* ---- the repaired defects, on the pre-repair variants of the model *)
+(* D19: zone octet 0x0A = minus 20 quarter hours; before the fix the sign bit was part of the tens digit: +100 *)
+Lemma zone_sign_legacy_refuted :
+  zone_of true 10 (lo4 10 * 10 + hi4 10) = (false, 100) /\ zone_of false 10 (lo4 10 * 10 + hi4 10) = (true, 20).
+Proof. split; vm_compute; reflexivity. Qed.
+(* D22: Marshal used to trim trailing zero octets: "A" 0x00 lost its last octet *)
+Lemma trailing_zero_legacy_refuted : trim_right0 [65; 0] = [65] /\ ud_octets (UdOctets [65; 0]) = [65; 0].
+Proof. split; reflexivity. Qed.
+(* D21, length octet: four septets ("Info") occupy four octets; two per octet gave 8, the standard says 7 *)
+Lemma alnum_length_legacy_refuted :
+  addr_write_legacy_len {| a_npi := 0; a_ton := 5; a_no := [73; 110; 102; 111] |} 4 = 8 /\
+  hd 0 (addr_write g7_table {| a_npi := 0; a_ton := 5; a_no := [73; 110; 102; 111] |}) = 7 /\
+  hd 0 (tp_addr {| sa_ton := 5; sa_npi := 0; sa_val := Alnum [73; 110; 102; 111] |}) = 7.
+Proof. repeat split; vm_compute; reflexivity. Qed.
+(* D20: before the fix the length octet of a numeric address was 2*octets-1 *)
 Lemma numeric_length_legacy_refuted :
   addr_write_legacy_len (addr_num_val w_oa (digits_of w_oa)) 5 = 9 /\
   hd 0 (addr_write g7_table (addr_num_val w_oa (digits_of w_oa))) = 10 /\ hd 0 (tp_addr w_oa) = 10.
 Proof. repeat split; vm_compute; reflexivity. Qed.
-
-(* ------------------------------------------------------------------ the alphabet table of the code against GSM 03.38 6.2.1 *)
-Lemma alphabet_sweep :
-  forallb (fun s => (s =? 9) || (s =? ESC) || (g7_rune s =? gsm_char s)) septets128 = true.
-Proof. vm_compute. reflexivity. Qed.
-Lemma alphabet_table s : s < 128 -> s <> 9 -> s <> ESC -> g7_rune s = gsm_char s.
-Proof.
-  intros Hs H9 He. pose proof alphabet_sweep as H. rewrite forallb_forall in H. specialize (H s (septets128_spec s Hs)).
-  destruct (N.eqb_spec s 9); [contradiction|]. destruct (N.eqb_spec s ESC); [contradiction|].
-  cbn [orb] in H. apply N.eqb_eq in H. exact H.
-Qed.
-(* D16: code 0x09 is U+00E7 in the code's table, U+00C7 in the standard *)
-Lemma alphabet_09_refuted : g7_rune 9 = 231 /\ gsm_char 9 = 199.
-Proof. split; vm_compute; reflexivity. Qed.
-
-(* non-vacuity for the alphanumeric branch: destination "Vodafone" (8 septets, 14 useful semi-octets) *)
-Definition w_alnum_ok : s_submit :=
-  {| s_rd := false; s_srr := false; s_udhi := false; s_rp := false; s_mr := 7;
-     s_da := {| sa_ton := 5; sa_npi := 0; sa_val := Alnum [86; 111; 100; 97; 102; 111; 110; 101] |};
-     s_pid := 0; s_dcs := 4; s_vp := VpAbsent; s_ud := UdOctets [1; 2; 3; 4] |}.
-Lemma w_alnum_example :
-  sms_remarshal (layout_submit w_alnum_ok) = Ok (layout_submit w_alnum_ok) /\
-  layout_submit w_alnum_ok = hx "0001070ED0D637396C7EBBCB00040401020304".
-Proof.
-  split; [|vm_compute; reflexivity].
-  apply submit_roundtrip.
-  - unfold submit_wf, addr_wf, vp_wf, ud_wf; cbn. wf_tac.
-  - unfold addr_rt_ok, alnum_rt_ok, plain; cbn. split; [|reflexivity].
-    repeat constructor; try lia; intro; discriminate.
-  - exact I.
-  - unfold ud_ends_in_zero. vm_compute. discriminate.
-Qed.
